@@ -331,6 +331,35 @@ func (ps *PathState) Concretize(s *sym, lo, hi int64) (int64, bool) {
 	return lo + chosen, true
 }
 
+// ChooseFresh forks a freshly created, otherwise unconstrained variable over
+// 0..n-1: every value is feasible by construction, so no query is needed.
+func (ps *PathState) ChooseFresh(s *sym, n int64) int64 {
+	c := ps.ctx
+	eqv := func(v int64) *smt.Term { return c.Eq(s.t, c.Const(s.t.Sort, uint64(v))) }
+	ps.Decisions++
+	if ps.pos < len(ps.prefix) {
+		a := ps.prefix[ps.pos]
+		ps.pos++
+		ps.Forced++
+		ps.taken = append(ps.taken, a)
+		ps.addPC(eqv(int64(a)))
+		return int64(a)
+	}
+	if n <= 0 {
+		panic(abort{AbortInfeasible, "choose from an empty range"})
+	}
+	for v := n - 1; v >= 1; v-- {
+		p := make([]int, len(ps.taken)+1)
+		copy(p, ps.taken)
+		p[len(ps.taken)] = int(v)
+		ps.Pending = append(ps.Pending, p)
+	}
+	ps.taken = append(ps.taken, 0)
+	ps.pos++
+	ps.addPC(eqv(0))
+	return 0
+}
+
 func sextInt(v uint64, bits int) int64 {
 	if bits >= 64 {
 		return int64(v)
